@@ -118,6 +118,13 @@ Proof.
     + rewrite (IH Hs). destruct (Z.eqb_spec k0 k'), (Z.eqb_spec k' k); try lia; reflexivity.
 Qed.
 
+Lemma ins_len {A} k (v : A) m : (length (ins k v m) <= S (length m))%nat.
+Proof.
+  induction m as [|[k0 v0] r IH]; cbn; [lia|].
+  destruct (k <? k0); cbn; [lia|]. destruct (k =? k0); cbn; lia.
+Qed.
+Lemma del_len {A} k (m : list (Z * A)) : (length (del k m) <= length m)%nat.
+Proof. induction m as [|[k0 v0] r IH]; cbn; [lia|]. destruct (k0 =? k); cbn; lia. Qed.
 (* position of an iterator: the map splits around the node with key k *)
 Lemma sorted_app_inv {A} (pre : list (Z * A)) k p suf : sorted (pre ++ (k, p) :: suf) ->
   ~ In k (keys pre) /\ sorted ((k, p) :: suf).
@@ -947,3 +954,284 @@ Definition witness_sched : list (nat * nat) := repeat (0%nat, 0%nat) 6.
 Lemma unfixed_faults :
   exists progs sched, faulted (gl (run glob loc (tstep_gen true) (init [] progs) sched)) = true.
 Proof. exists witness_progs, witness_sched. vm_compute. reflexivity. Qed.
+
+(* ====================================================================== *)
+(* G. the sequential map is the specification: a pair of finite maps       *)
+(* ====================================================================== *)
+Definition amap (A : Type) := Z -> option A.
+Definition aupd {A} (f : amap A) (k : Z) (v : option A) : amap A := fun k' => if k' =? k then v else f k'.
+Definition abs {A} (m : list (Z * A)) : amap A := fun k => lookup k m.
+Definition aeq {A} (f g : amap A) : Prop := forall k, f k = g k.
+
+(* new contents of (objects, tags) after a method without predicate *)
+Definition spec_sop (o : sop) (arg : ptr) (O : amap ptr) (T : amap (list Z)) : amap ptr * amap (list Z) :=
+  match o with
+  | Add n _ => match O n with Some _ => (O, T) | None => (aupd O n (Some arg), T) end
+  | AddT n _ ty =>
+    match O n with
+    | Some _ => (O, T)
+    | None => (aupd O n (Some arg), match T n with Some _ => T | None => aupd T n (Some [ty]) end)
+    end
+  | AddType n ty => (O, aupd T n (Some (match T n with Some ts => ts ++ [ty] | None => [ty] end)))
+  | RemName n => match O n with Some _ => (aupd O n None, aupd T n None) | None => (O, T) end
+  | Copy a b =>
+    match O a, O b with
+    | Some p, None => (aupd O b (Some p), match T a, T b with Some ts, None => aupd T b (Some ts) | _, _ => T end)
+    | _, _ => (O, T)
+    end
+  | _ => (O, T)
+  end.
+(* its result *)
+Definition spec_ret (o : sop) (O : amap ptr) (T : amap (list Z)) (r : Z) : Prop :=
+  match o with
+  | Add n _ => r = b2z (negb (is_some (O n)))
+  | AddT n _ _ => r = b2z (negb (is_some (O n)))
+  | AddType _ _ => r = 0
+  | RemName n => r = b2z (is_some (O n))
+  | Copy a b => r = b2z (is_some (O a) && negb (is_some (O b)))
+  | FindName n _ => r = match O n with Some p => Z.of_nat (pid p) | None => 0 end
+  | CheckType n ty => r = b2z (match T n with Some ts => memZ ty ts | None => false end)
+  | GetObjects => exists l, sorted l /\ (forall k p, In (k, p) l <-> O k = Some p) /\ r = enc_objs l
+  | Empty => (r = 1 /\ forall k, O k = None) \/ (r = 0 /\ exists k p, O k = Some p)
+  end.
+
+Lemma aeq_refl {A} (f : amap A) : aeq f f.
+Proof. intros k; reflexivity. Qed.
+Lemma abs_ins {A} k (v : A) m : sorted m -> lookup k m = None -> aeq (abs (ins k v m)) (aupd (abs m) k (Some v)).
+Proof. intros Hs Hn k'. unfold abs, aupd. rewrite (lookup_ins _ _ _ _ Hs), Hn. reflexivity. Qed.
+Lemma abs_ins_keep {A} k (v x : A) m : sorted m -> lookup k m = Some x -> aeq (abs (ins k v m)) (abs m).
+Proof.
+  intros Hs Hn k'. unfold abs. rewrite (lookup_ins _ _ _ _ Hs), Hn.
+  destruct (Z.eqb_spec k' k) as [->|]; [symmetry; exact Hn|reflexivity].
+Qed.
+Lemma abs_put {A} k (v : A) m : sorted m -> aeq (abs (put k v m)) (aupd (abs m) k (Some v)).
+Proof. intros Hs k'. unfold abs, aupd. apply lookup_put. exact Hs. Qed.
+Lemma abs_del {A} k (m : list (Z * A)) : sorted m -> aeq (abs (del k m)) (aupd (abs m) k None).
+Proof. intros Hs k'. unfold abs, aupd. apply lookup_del. exact Hs. Qed.
+Lemma abs_del_none {A} k (m : list (Z * A)) : sorted m -> lookup k m = None -> aeq (abs (del k m)) (abs m).
+Proof.
+  intros Hs Hn k'. unfold abs. rewrite (lookup_del _ _ _ Hs).
+  destruct (Z.eqb_spec k' k) as [->|]; [symmetry; exact Hn|reflexivity].
+Qed.
+
+Lemma seq_refines_sop o arg om tm om' tm' r tch :
+  sorted om -> sorted tm -> apply_sop o arg om tm = (om', tm', r, tch) ->
+  aeq (abs om') (fst (spec_sop o arg (abs om) (abs tm))) /\
+  aeq (abs tm') (snd (spec_sop o arg (abs om) (abs tm))) /\
+  spec_ret o (abs om) (abs tm) r.
+Proof.
+  intros Ho Ht H. unfold apply_sop in H. unfold spec_sop, spec_ret.
+  assert (abs_eq : forall A (m : list (Z * A)) k, abs m k = lookup k m) by reflexivity.
+  destruct o; rewrite ?abs_eq.
+  - destruct (lookup n om) eqn:E; inversion H; subst; cbn [fst snd is_some negb b2z];
+      repeat split; auto using aeq_refl, abs_ins.
+  - destruct (lookup n om) eqn:E; inversion H; subst; cbn [fst snd is_some negb b2z];
+      repeat split; auto using aeq_refl, abs_ins.
+    destruct (lookup n tm) eqn:E2; [eapply abs_ins_keep; eauto|apply abs_ins; auto].
+  - inversion H; subst. cbn [fst snd]. repeat split; auto using aeq_refl. apply abs_put; auto.
+  - destruct (lookup n om) eqn:E; inversion H; subst; cbn [fst snd is_some b2z];
+      repeat split; auto using aeq_refl, abs_del.
+  - destruct (lookup a om) eqn:E; [destruct (lookup b om) eqn:E2|]; inversion H; subst;
+      cbn [fst snd is_some negb andb b2z]; repeat split; auto using aeq_refl, abs_ins.
+    destruct (lookup a tm) eqn:E3; [|apply aeq_refl].
+    destruct (lookup b tm) eqn:E4; [eapply abs_ins_keep; eauto|apply abs_ins; auto].
+  - destruct (lookup n om) eqn:E; inversion H; subst; cbn [fst snd]; repeat split; auto using aeq_refl.
+  - inversion H; subst. cbn [fst snd]. repeat split; auto using aeq_refl.
+  - inversion H; subst. cbn [fst snd]. repeat split; auto using aeq_refl.
+    exists om'. repeat split; auto.
+    + intros Hin. apply in_lookup; auto.
+    + apply lookup_some_in.
+  - inversion H; subst. cbn [fst snd]. repeat split; auto using aeq_refl.
+    destruct om' as [|[k p] rest].
+    + left. split; [reflexivity|]. intros k. reflexivity.
+    + right. split; [reflexivity|]. exists k, p. rewrite abs_eq. unfold lookup. rewrite Z.eqb_refl. reflexivity.
+Qed.
+
+(* methods with a predicate: the first entry in key order that satisfies the test *)
+Definition pscan_post (o : pop) (om : omapT) (tm : tmapT) (s' : mstate) (r : option Z) : Prop :=
+  match r with
+  | None => m_o s' = om /\ m_t s' = tm
+  | Some rv =>
+    (exists k p, lookup k om = Some p /\ ptest o tm k p = true /\
+                 (forall k' p', lookup k' om = Some p' -> ptest o tm k' p' = true -> k <= k') /\
+                 (m_o s', m_t s', rv) = pfound o om tm k p) \/
+    ((forall k p, lookup k om = Some p -> ptest o tm k p = false) /\ m_o s' = om /\ m_t s' = tm /\ rv = 0)
+  end.
+Lemma pscan_spec_gen thr o om tm : sorted om -> forall rest pre c s' r, om = pre ++ rest ->
+  (forall k p, In (k, p) pre -> ptest o tm k p = false) ->
+  pscan thr o om tm rest c = (s', r) -> pscan_post o om tm s' r.
+Proof.
+  intros Hs. induction rest as [|[k p] rest IH]; intros pre c s' r Eo Hpre H.
+  - rewrite pscan_nil in H. inversion H; subst. cbn. right. repeat split; auto.
+    intros k p Hl. apply Hpre. apply lookup_some_in in Hl. rewrite app_nil_r in Hl. exact Hl.
+  - rewrite pscan_cons in H. destruct (memZ c thr); [inversion H; subst; cbn; auto|].
+    destruct (ptest o tm k p) eqn:Ht.
+    + destruct (pfound o om tm k p) as [[a b] rv] eqn:Ef. inversion H; subst s' r. cbn. left.
+      exists k, p. rewrite Eo in Hs. pose proof (lookup_split _ _ _ _ Hs) as Hl. rewrite <- Eo in *.
+      repeat split; auto.
+      intros k' p' Hl' Ht'. apply lookup_some_in in Hl'. rewrite Eo in Hl'. apply in_app_or in Hl'.
+      destruct Hl' as [Hin|[Heq|Hin]].
+      * rewrite (Hpre _ _ Hin) in Ht'. discriminate.
+      * inversion Heq; subst. lia.
+      * rewrite Eo in Hs. destruct (sorted_app_inv _ _ _ _ Hs) as [_ [Hlt _]].
+        specialize (Hlt k' (in_map fst _ _ Hin)). lia.
+    + apply (IH (pre ++ [(k, p)]) (c + 1)); [rewrite <- app_assoc; exact Eo| |exact H].
+      intros k' p' Hin. apply in_app_or in Hin. destruct Hin as [Hin|[Heq|[]]]; [auto|inversion Heq; subst; exact Ht].
+Qed.
+Lemma seq_refines_pop thr o om tm c s' r : sorted om ->
+  pscan thr o om tm om c = (s', r) -> pscan_post o om tm s' r.
+Proof. intros Hs H. apply (pscan_spec_gen thr o om tm Hs om [] c s' r eq_refl); [intros k p []|exact H]. Qed.
+(* what is done with the entry found *)
+Lemma pfound_spec o om tm k p om' tm' rv : sorted om -> sorted tm -> pfound o om tm k p = (om', tm', rv) ->
+  if is_rem o then aeq (abs om') (aupd (abs om) k None) /\ aeq (abs tm') (aupd (abs tm) k None) /\ rv = 1
+  else om' = om /\ tm' = tm /\ rv = Z.of_nat (pid p).
+Proof.
+  intros Ho Ht H. destruct o; unfold is_rem; cbn in *; inversion H; subst; auto.
+  repeat split; auto using abs_del.
+Qed.
+
+(* ====================================================================== *)
+(* H. bounded work: every schedule makes a bounded number of moves         *)
+(* ====================================================================== *)
+Definition is_ins (o : op) : bool :=
+  match o with OS (Add _ _) | OS (AddT _ _ _) | OS (Copy _ _) => true | _ => false end.
+(* insertions a thread may still perform *)
+Definition pend (l : loc) : nat :=
+  (length (filter is_ins (prog l)) + match at_ l with SLock o => if is_ins (OS o) then 1 else 0 | _ => 0 end)%nat.
+Definition total_ins (progs : list (list op)) : nat := list_sum (map (fun p => length (filter is_ins p)) progs).
+Definition Inv2 (N : nat) (g : glob) (ls : list loc) : Prop :=
+  Inv g ls /\ (length (omap g) + list_sum (map pend ls) <= N)%nat.
+
+Lemma apply_sop_len o a om tm om' tm' r tch : apply_sop o a om tm = (om', tm', r, tch) ->
+  (length om' <= length om + (if is_ins (OS o) then 1 else 0))%nat.
+Proof.
+  unfold apply_sop. intros H.
+  destruct o; repeat match type of H with context [match ?x with _ => _ end] => destruct x end;
+    inversion H; subst; cbn [is_ins]; try lia.
+  all: match goal with
+       | |- context [length (ins ?k ?v ?m)] => pose proof (ins_len k v m); lia
+       | |- context [length (del ?k ?m)] => pose proof (del_len k m); lia
+       end.
+Qed.
+
+Lemma size_step N g ls t c l g' l' es :
+  (length (omap g) + list_sum (map pend ls) <= N)%nat ->
+  nth_error ls t = Some l -> tstep t c g l = Some (g', l', es) ->
+  (length (omap g') + list_sum (map pend (upd ls t l')) <= N)%nat.
+Proof.
+  intros HN Hl Hs. pose proof (sum_upd pend ls t l l' Hl) as E.
+  assert (length (omap g') + pend l' <= length (omap g) + pend l)%nat; [|lia].
+  clear HN E Hl. destruct l as [pr p sl hd]. unfold pend.
+  step_cases Hs; cbn [omap prog at_ filter is_ins]; try lia.
+  all: try match goal with H : new_arg ?o = _ |- _ => destruct o; cbn in H; try discriminate; cbn [is_ins filter length]; lia end.
+  all: try match goal with H : apply_sop _ _ _ _ = _ |- _ => pose proof (apply_sop_len _ _ _ _ _ _ _ _ H) as Q; cbn [is_ins] in Q; lia end.
+  all: try match goal with |- context [del ?k ?m] => pose proof (del_len k m); lia end.
+  all: try (destruct (is_ins _); cbn [length]; lia).
+Qed.
+
+Lemma Inv2_step N : forall g ls t c l g' l' es,
+  Inv2 N g ls -> nth_error ls t = Some l -> tstep t c g l = Some (g', l', es) -> Inv2 N g' (upd ls t l').
+Proof.
+  intros g ls t c l g' l' es [HI HN] Hl Hs. split; [eapply Inv_step; eauto|eapply size_step; eauto].
+Qed.
+Lemma Inv2_init th progs : Inv2 (total_ins progs) (gl (init th progs)) (thr (init th progs)).
+Proof.
+  split; [apply Inv_init|]. unfold init, total_ins. cbn [gl thr omap length]. rewrite map_map.
+  unfold pend. cbn [prog at_]. apply Nat.eq_le_incl. cbn [Nat.add]. f_equal. apply map_ext. intros; lia.
+Qed.
+Lemma R_inv2 th progs s : R th progs s -> Inv2 (total_ins progs) (gl s) (thr s).
+Proof. intros H. eapply reachable_inv; [apply Inv2_step|apply Inv2_init|exact H]. Qed.
+
+Definition cnt_ge (k : Z) (m : omapT) : nat := length (filter (fun kp => k <=? fst kp) m).
+Definition wpc (N : nat) (g : glob) (p : pc) : nat :=
+  match p with
+  | Idle => 0
+  | SLock _ => 2
+  | PLock _ => N + 3
+  | Call _ k => 2 + cnt_ge k (omap g)
+  | Unlock _ _ _ => 1
+  | XUnlock _ => 1
+  end%nat.
+Definition wloc (N : nat) (g : glob) (l : loc) : nat := ((N + 4) * length (prog l) + wpc N g (at_ l))%nat.
+Definition mu (N : nat) (s : sysS) : nat := list_sum (map (wloc N (gl s)) (thr s)).
+
+Lemma cnt_ge_le k m : (cnt_ge k m <= length m)%nat.
+Proof. unfold cnt_ge. induction m as [|a r IH]; cbn; [lia|]. destruct (k <=? fst a); cbn; lia. Qed.
+Lemma cnt_ge_mono k k' m : k <= k' -> (cnt_ge k' m <= cnt_ge k m)%nat.
+Proof.
+  intros H. unfold cnt_ge. induction m as [|[k0 p] r IH]; cbn; [lia|].
+  destruct (Z.leb_spec k' k0), (Z.leb_spec k k0); cbn; lia.
+Qed.
+Lemma cnt_ge_lt k k' p m : k < k' -> In (k, p) m -> (cnt_ge k' m < cnt_ge k m)%nat.
+Proof.
+  intros H. unfold cnt_ge. induction m as [|[k0 p0] r IH]; cbn; [tauto|]. intros [E|Hin].
+  - inversion E; subst. destruct (Z.leb_spec k' k), (Z.leb_spec k k); cbn; try lia.
+    pose proof (cnt_ge_mono k k' r ltac:(lia)). unfold cnt_ge in *. lia.
+  - specialize (IH Hin). destruct (Z.leb_spec k' k0), (Z.leb_spec k k0); cbn; lia.
+Qed.
+
+Lemma sum_step_dec_idx {A} (f f' : A -> nat) (l : list A) t x y : nth_error l t = Some x ->
+  (forall u z, u <> t -> nth_error l u = Some z -> (f' z <= f z)%nat) -> (f' y < f x)%nat ->
+  (list_sum (map f' (upd l t y)) < list_sum (map f l))%nat.
+Proof.
+  revert t; induction l as [|h r IH]; destruct t; simpl; intros Hn Hm Hd; try discriminate.
+  - inversion Hn; subst.
+    assert (list_sum (map f' r) <= list_sum (map f r))%nat.
+    { clear -Hm. assert (forall u z, nth_error r u = Some z -> (f' z <= f z)%nat) as Hm'
+        by (intros u z Hz; apply (Hm (S u) z); [lia|exact Hz]).
+      clear Hm. induction r as [|a r IH]; simpl; [lia|].
+      pose proof (Hm' 0%nat a eq_refl). assert (list_sum (map f' r) <= list_sum (map f r))%nat; [|lia].
+      apply IH. intros u z Hz. apply (Hm' (S u) z Hz). }
+    lia.
+  - assert (list_sum (map f' (upd r t y)) < list_sum (map f r))%nat.
+    { apply (IH t Hn); [|exact Hd]. intros u z Hne Hz. apply (Hm (S u) z); [lia|exact Hz]. }
+    pose proof (Hm 0%nat h ltac:(lia) eq_refl). lia.
+Qed.
+
+Lemma mu_dec N s t c : Inv2 N (gl s) (thr s) -> enabledS s t c ->
+  (mu N (step glob loc tstep s (t, c)) < mu N s)%nat.
+Proof.
+  intros [HI HN] [l [r [Hl Hs]]]. destruct r as [[g' l'] es].
+  unfold step, sys_step. rewrite Hl, Hs. cbn [fst]. unfold mu. cbn [gl thr].
+  apply (sum_step_dec_idx (wloc N (gl s)) (wloc N g') (thr s) t l l' Hl).
+  - (* the other threads' weights do not grow: only the owner can be inside a scan *)
+    intros u z Hne Hz. unfold wloc. apply Nat.add_le_mono_l.
+    destruct (at_ z) eqn:Ez; cbn [wpc]; try lia.
+    assert (mtx (gl s) = Some u) as Hm.
+    { apply (I_owner _ _ HI). rewrite (pcof_at _ _ _ Hz), Ez. reflexivity. }
+    assert (holds (at_ l) = false) as Hnh.
+    { destruct (holds (at_ l)) eqn:E; [|reflexivity]. rewrite <- (pcof_at _ _ _ Hl) in E.
+      pose proof (I_owner _ _ HI t E). congruence. }
+    assert (mtx (gl s) <> None) as Hmn by congruence.
+    destruct (step_other _ _ _ _ _ _ _ Hnh Hmn Hs) as [E1 _]. rewrite E1. lia.
+  - pose proof (I_so _ _ HI) as Hso.
+    assert (length (omap (gl s)) <= N)%nat as Hlen by lia.
+    pose proof (pcof_at _ _ _ Hl) as Hp.
+    destruct l as [pr p sl hd]. unfold wloc. cbn [at_] in Hp.
+    step_cases Hs; cbn [prog at_ length wpc omap]; try lia.
+    + (* begin() *)
+      match goal with |- context [cnt_ge ?k ?m] => pose proof (cnt_ge_le k m) end. lia.
+    + (* ++it *)
+      destruct (call_valid _ _ _ _ _ HI Hp) as [pre [q [suf [Eo [Hlk Hnk]]]]].
+      match goal with H : next_key _ _ = Some ?z |- _ => rewrite Hnk in H; destruct (first_key_some _ _ H) as [p' [suf' ->]] end.
+      rewrite Eo in Hso. destruct (sorted_app_inv _ _ _ _ Hso) as [_ [Hlt _]].
+      match goal with |- context [cnt_ge ?z (omap (gl s))] =>
+        assert (k < z) as Hkz by (apply Hlt; left; reflexivity) end.
+      pose proof (lookup_some_in _ _ _ Hlk) as Hin.
+      match type of Hkz with _ < ?z => pose proof (cnt_ge_lt k z q _ Hkz Hin) end.
+      lia.
+Qed.
+
+(* every schedule, from every reachable state, makes at most mu moves: no livelock, no retry loop *)
+Lemma bounded_work th progs s sc : R th progs s ->
+  (moves glob loc tstep s sc <= mu (total_ins progs) s)%nat.
+Proof.
+  intros HR.
+  apply (moves_le_mu glob loc tstep (mu (total_ins progs)) (Inv2 (total_ins progs)) (Inv2_step _) (fun _ => true)).
+  - intros s0 t c HI _ He. apply mu_dec; auto.
+  - apply (R_inv2 _ _ _ HR).
+  - unfold sched_ok. apply forallb_forall. reflexivity.
+Qed.
+
+Lemma maps_sorted th progs s : R th progs s -> sorted (omap (gl s)) /\ sorted (tmap (gl s)).
+Proof. intros H. exact (conj (I_so _ _ (R_inv _ _ _ H)) (I_st _ _ (R_inv _ _ _ H))). Qed.
